@@ -16,6 +16,12 @@ def run(prop, path):
             vec = {"op": ev["op"], "args": ev["args"], "pre": ev["pre"], "arg": ev["arg"]}
             new, _ = T.run_vector(vec, T.EMBS[ev.get("emb", "dy")], T.POOLS[ev.get("pool", "ascii")], 0)
             verdicts, _, _ = common.validate_traces("Trace_Tier", [new], work)
+        elif fam == "tg":
+            from . import tier as T, tg as G
+            vec = {"op": ev["op"], "args": ev["args"], "pre": ev["pre"], "argt": ev["argt"], "argtg": ev["argtg"]}
+            new, _ = G.run_vector(vec, T.EMBS[ev.get("emb", "dy")], T.POOLS[ev.get("pool", "ascii")], 0)
+            verdicts, _, _ = common.validate_traces("Trace_Tg", [new], work)
+            new.setdefault("arg", new.get("argt"))
         else:
             from . import registry
             return registry.REPLAYERS[fam](prop, d, work)
